@@ -10,6 +10,9 @@ from ..core import HarnessError
 ID = 'C13'
 TITLE = 'df_slice interval filter; stitching at bounds; df_unslice inverse'
 LEVEL = 'exploration'
+TECHNIQUE = 'runtime monitoring: timestamp-filter reference model for the four bracket pairs and time-of-day windows; stitching as a mapping timestamp->row with at-most-once count; unslice by re-stitching'
+LEVEL_TEXT = 'Held on the series/bounds explored with >=50% of bounds exactly on index points. A check says held on K observed executions, never verified.'
+LEVEL_NOTE = 'Trusted: the filter model; a stitched result is compared as a mapping (the statement fixes no row order).'
 RULE = ('random datetime-indexed Series/DataFrames (daily and intraday grids with gaps, empty), lb/ub before/on/between/after index points (>=50% ON an index point), all four bracket pairs, '
         'dates and times of day (incl. windows wrapping past midnight); stitching of 2-5 series at increasing/decreasing bound lists for every n in 1..k; df_unslice round trip; '
         'non-trivial = >=1 bound coinciding with an index point; distinct = canonical hash')
